@@ -63,6 +63,8 @@ func runC05(r *oblig.Report) {
 	e5path.ErrorProvenance(c.P, r, "R5.5", "graph", []string{"ErrModelCycle", "ErrTupleCycle", "ErrInvalidModel"}, fs)
 	r.Rule("R5.6", "instance-table", "no callee error is dropped on the way to Build's result", 9)
 	e5path.Propagation(c.P, r, "R5.6", fs, dropExceptions)
+	r.Rule("C05.4", "path-enumeration", "AssignWeights starts the weight calculation from every node it has not visited yet", 1)
+	e5path.EveryNodeWeighed(c.P, r, "C05.4")
 	// the verdict is a function of the model alone: no state survives a Build call in the builder or in the package
 	r.Rule("R2.2", "universe", "no write to package-level state", 0)
 	r.Rule("R2.1r", "instance-table", "builder methods never store into their receiver", 1)
@@ -106,9 +108,12 @@ func runC11(r *oblig.Report) {
 	c.noteReach("reachable", fs)
 	scheduleClauses(c, r, fs, build)
 	r.Rule("R2.3", "instance-table", "no wildcard slice is shared between owners while appends are reachable", 10)
-	r.Rule("C11.3", "instance-table", "every append to a wildcards list is guarded by !slices.Contains on the same list and element", 4)
+	r.Rule("C11.3", "instance-table", "every append to a wildcards list is guarded by !slices.Contains on the same list and element", 2)
 	e2own.SharedSlices(c.P, r, "R2.3", build, fs, []string{"wildcards"}, weightedStructs)
 	e2own.GuardedAppends(c.P, r, "C11.3", fs, "wildcards", weightedStructs)
+	r.Rule("C11.4", "path-enumeration", "the dependants of a resolved tuple-cycle root receive the wildcards of that root and of nothing else", 2)
+	e5path.RootWildcardsReachDependants(c.P, r, "C11.4", fs)
+	noPackageState(c.P, r, fs)
 }
 
 var usersetAll = []string{"This", "ComputedUserset", "TupleToUserset", "Union", "Intersection", "Difference"}
@@ -134,7 +139,7 @@ func runC10(r *oblig.Report) {
 		{Pkg: "graph", Func: "WeightedAuthorizationModelGraphBuilder.parseRewrite", Message: "Userset", Required: usersetAll},
 		{Pkg: "graph", Func: "WeightedAuthorizationModelGraphBuilder.parseThis", Message: "RelationReference", Required: []string{"RelationOrWildcard", "Wildcard", "Relation", "Type", "Condition"}},
 	})
-	e1variants.Siblings(c.P, r, "R1.4")
+	e1variants.Siblings(c.P, r, "R1.4", "weighted")
 	e2own.ArgPurity(c.P, r, "R2.1", build, fs)
 	e5path.NormalisedBeforeCompare(c.P, r, "C10.5", c.Entry("graph.WeightedAuthorizationModelGraph.UpsertEdge"), "condition")
 	r.Rule("C10.6", "path-enumeration", "an existing edge is matched only after its kind and its tupleset relation were compared with the parameters", 2)
@@ -145,6 +150,12 @@ func runC10(r *oblig.Report) {
 	r.Rule("R1.6", "instance-table", "translation loops over operands and restrictions run to completion unless they fail", 4)
 	e5path.CompleteIteration(c.P, r, "R1.6", []string{"graph.WeightedAuthorizationModelGraphBuilder.Build", "graph.WeightedAuthorizationModelGraphBuilder.parseRewrite",
 		"graph.WeightedAuthorizationModelGraphBuilder.parseThis", "graph.WeightedAuthorizationModelGraphBuilder.parseTupleToUserset"})
+	r.Rule("C10.7", "path-enumeration", "every union / intersection / exclusion occurrence gets its own operator node and its operands are attached to that node", 1)
+	e5path.OperatorNodePerOccurrence(c.P, r, "C10.7", []string{"graph.WeightedAuthorizationModelGraphBuilder.parseRewrite"})
+	// the graph mirrors THIS model: nothing kept from an earlier Build, in the package or in the builder
+	noPackageState(c.P, r, fs)
+	r.Rule("R2.1r", "instance-table", "builder methods never store into their receiver", 1)
+	e2own.ReceiverState(c.P, r, "R2.1r", "graph", "WeightedAuthorizationModelGraphBuilder", fs)
 }
 
 func runC17(r *oblig.Report) {
@@ -180,7 +191,7 @@ func runC17(r *oblig.Report) {
 		{Pkg: "graph", Func: "checkRewrite", Message: "Userset", Required: usersetAll},
 		{Pkg: "graph", Func: "parseThis", Message: "RelationReference", Required: []string{"RelationOrWildcard", "Wildcard", "Relation", "Type", "Condition"}},
 	})
-	e1variants.Siblings(c.P, r, "R1.4")
+	e1variants.Siblings(c.P, r, "R1.4", "plain")
 	e1variants.ReversedForwards(c.P, r, "R1.4")
 	r.Rule("C17.4", "instance-table", "operator nodes get a unique label derived from a random id made in the same invocation", 1)
 	a.FreshLabels("C17.4", fs, []string{"getOrAddNode"}, "uniqueLabel", "nodeType", 2)
@@ -188,6 +199,8 @@ func runC17(r *oblig.Report) {
 	e5path.CompleteIteration(c.P, r, "R1.6", []string{"graph.parseModel", "graph.checkRewrite", "graph.parseThis", "graph.parseTupleToUserset"})
 	r.Rule("C10.6", "path-enumeration", "an existing edge is matched only after its kind and its tupleset relation were compared with the parameters", 2)
 	e5path.EdgeIdentity(c.P, r, "C10.6", []string{"graph.AuthorizationModelGraphBuilder.upsertEdge", "graph.AuthorizationModelGraphBuilder.hasEdge"})
+	r.Rule("C10.7", "path-enumeration", "every union / intersection / exclusion occurrence gets its own operator node and its operands are attached to that node", 1)
+	e5path.OperatorNodePerOccurrence(c.P, r, "C10.7", []string{"graph.checkRewrite"})
 	r.Rule("C17.5", "instance-table", "PathExists answers with the library reachability query on the looked-up nodes in argument order", 1)
 	e5path.DelegatesTo(c.P, r, "C17.5", c.Entry("graph.AuthorizationModelGraph.PathExists"), "gonum.org/v1/gonum/graph/topo", "PathExistsIn", "GetNodeByLabel")
 	r.Rule("R2.1", "instance-table", "no plain-graph entry point writes memory reachable from its arguments", len(entries))
